@@ -474,3 +474,154 @@ Proof.
   apply (l_rc_loop_spec x len Hinv E); try assumption; try lia.
   rewrite An, Nat.sub_0_r. cbn [firstn]. unfold rc. cbn [rev map]. now rewrite app_nil_r.
 Qed.
+
+(* ---------------------------------------------------------------- from_slice, to_bytes *)
+Lemma l_set_all_spec l : forall x len i, l_inv x -> l_len x = Some len -> wf_dna l -> (i + length l <= len)%nat ->
+  exists x', l_set_all x i l = Some x' /\ l_size x' = l_size x /\ l_inv x' /\ l_len x' = Some len /\
+             l_abs x' = splice i l (l_abs x).
+Proof.
+  induction l as [|b l IH]; intros x len i Hinv E Hl Hi.
+  - exists x. cbn [l_set_all]. split; [reflexivity|]. split; [reflexivity|]. split; [exact Hinv|]. split; [exact E|].
+    rewrite splice_nil; [reflexivity|]. rewrite (l_abs_length x len Hinv E). cbn [length] in Hi. lia.
+  - inversion Hl; subst. cbn [length] in Hi.
+    destruct (l_set_mut_spec x len i b Hinv E ltac:(lia) H1) as [x1 [E1 [S1 [I1 [L1 A1]]]]].
+    destruct (IH x1 len (S i) I1 L1 H2 ltac:(lia)) as [x2 [E2 [S2 [I2 [L2 A2]]]]].
+    exists x2. cbn [l_set_all]. rewrite E1. cbn [obind]. split; [exact E2|]. split; [congruence|]. split; [exact I2|].
+    split; [exact L2|]. rewrite A2, A1. apply splice_step. rewrite (l_abs_length x len Hinv E). lia.
+Qed.
+
+Theorem l_from_slice_spec n l : (1 <= n <= 6)%nat -> wf_dna l -> (length l <= l_max_len n)%nat ->
+  exists x, l_from_slice n l = Some x /\ l_size x = n /\ l_inv x /\ l_len x = Some (length l) /\ l_abs x = l.
+Proof.
+  intros Hn Hl Hlen. unfold l_from_slice.
+  destruct (l_new_spec n (length l) Hn Hlen) as [x0 [E0 [S0 [I0 [L0 A0]]]]]. rewrite E0. cbn [obind].
+  destruct (l_set_all_spec l x0 (length l) 0 I0 L0 Hl ltac:(lia)) as [x [E [S1 [I [L A]]]]].
+  exists x. split; [exact E|]. split; [congruence|]. split; [exact I|]. split; [exact L|].
+  rewrite A. apply splice_all. now rewrite A0, repeat_length.
+Qed.
+
+Theorem l_to_bytes_spec x : l_inv x -> l_to_bytes x = Some (l_abs x).
+Proof.
+  intro Hinv. destruct (l_inv_len x Hinv) as [len [E [_ HA]]]. unfold l_to_bytes. rewrite E. cbn [obind].
+  assert (G : forall ps, Forall (fun i => (i < len)%nat) ps -> omapN (l_get x) ps = Some (map (fun i => nth i (l_abs x) 0) ps)).
+  { induction ps as [|i ps IH]; intro H; [reflexivity|]. inversion H; subst. cbn [omapN map].
+    rewrite (l_get_spec x (length (l_abs x)) i Hinv E) by assumption. cbn [obind]. rewrite IH by assumption. reflexivity. }
+  rewrite G.
+  - f_equal. rewrite <- HA. apply map_nth_seq.
+  - apply Forall_forall. intros i Hi. apply in_seq in Hi. lia.
+Qed.
+
+(* ---------------------------------------------------------------- histories *)
+Lemma decode_digits4' K s : decode K s = digits4 K s.
+Proof. unfold decode, digits4. apply map_ext. intro p. apply lane_div. Qed.
+
+(* guards of a history step (what the API documents): positions inside the sequence, bases < 4, runs of 1..32
+   bases inside the sequence, a u64 payload *)
+Definition lop_ok (len : nat) (o : lop) : bool :=
+  match o with
+  | LSet p b => Nat.ltb p len && (b <? 4)
+  | LSetSlice p n v => Nat.leb 1 n && Nat.leb n 32 && Nat.leb (p + n) len && (v <? two64)
+  | LRc => true
+  end.
+
+Theorem lstep_refines x len o : l_inv x -> l_len x = Some len -> lop_ok len o = true ->
+  exists x', lstep x o = Some x' /\ l_size x' = l_size x /\ l_inv x' /\ l_len x' = Some len /\
+             l_abs x' = slstep (l_abs x) o.
+Proof.
+  intros Hinv E Hok. destruct o as [p b|p n v|]; cbn [lop_ok lstep slstep] in *.
+  - apply andb_prop in Hok as [H1 H2]. apply Nat.ltb_lt in H1. apply N.ltb_lt in H2. now apply l_set_mut_spec.
+  - apply andb_prop in Hok as [Hok H4]. apply andb_prop in Hok as [Hok H3]. apply andb_prop in Hok as [H1 H2].
+    apply Nat.leb_le in H1, H2, H3. apply N.ltb_lt in H4. rewrite <- decode_digits4'.
+    apply l_set_slice_mut_spec; auto.
+  - now apply l_rc_spec.
+Qed.
+
+(* every in-range history keeps the invariant, the capacity and the length, and the contents are those of the
+   plain list subjected to the same operations *)
+Theorem lsteps_refines ops : forall x len, l_inv x -> l_len x = Some len -> forallb (lop_ok len) ops = true ->
+  exists x', lsteps x ops = Some x' /\ l_size x' = l_size x /\ l_inv x' /\ l_len x' = Some len /\
+             l_abs x' = fold_left slstep ops (l_abs x).
+Proof.
+  induction ops as [|o ops IH]; intros x len Hinv E Hok.
+  - exists x. cbn. auto.
+  - cbn [forallb] in Hok. apply andb_prop in Hok as [Ho Hr].
+    destruct (lstep_refines x len o Hinv E Ho) as [x1 [E1 [S1 [I1 [L1 A1]]]]].
+    destruct (IH x1 len I1 L1 Hr) as [x2 [E2 [S2 [I2 [L2 A2]]]]].
+    exists x2. cbn [lsteps fold_left]. rewrite E1. split; [exact E2|]. split; [congruence|]. split; [exact I2|].
+    split; [exact L2|]. now rewrite A2, A1.
+Qed.
+
+(* from Lmer::new(len): all A's, then any in-range history *)
+Theorem l_history n len ops : (1 <= n <= 6)%nat -> (len <= l_max_len n)%nat -> forallb (lop_ok len) ops = true ->
+  exists x0 x, l_new n len = Some x0 /\ lsteps x0 ops = Some x /\ l_size x = n /\ l_inv x /\ l_len x = Some len /\
+               l_abs x = fold_left slstep ops (repeat 0 len).
+Proof.
+  intros Hn Hlen Hok. destruct (l_new_spec n len Hn Hlen) as [x0 [E0 [S0 [I0 [L0 A0]]]]].
+  destruct (lsteps_refines ops x0 len I0 L0 Hok) as [x [E [S1 [I [L A]]]]].
+  exists x0, x. split; [exact E0|]. split; [exact E|]. split; [congruence|]. split; [exact I|]. split; [exact L|].
+  now rewrite A, A0.
+Qed.
+
+(* ---------------------------------------------------------------- equality and hash input *)
+(* the canonical form of the lane vector: bases, zero padding, the four lanes of the length byte *)
+Lemma l_lanes_canon x len : l_inv x -> l_len x = Some len ->
+  lanes_of x = l_abs x ++ repeat 0 (32 * l_size x - 4 - len) ++ decode 4 (N.of_nat len).
+Proof.
+  intros Hinv E. pose proof Hinv as [Hs [Hw [len' [E' [Hmax Hz]]]]]. rewrite E in E'. injection E' as <-.
+  rewrite l_max_len_eq in Hmax. rewrite (l_abs_len x len E).
+  rewrite <- (firstn_skipn len (lanes_of x)) at 1. f_equal.
+  rewrite <- (firstn_skipn (32 * l_size x - 4 - len) (skipn len (lanes_of x))). rewrite Hz. f_equal.
+  rewrite skipn_skipn. replace (len + (32 * l_size x - 4 - len))%nat with (32 * l_size x - 4)%nat by lia.
+  unfold l_size in *. rewrite skipn_last4 by lia.
+  rewrite l_len_lanes in E by (unfold l_size; lia). injection E as E. unfold len_of_lanes, l_size in E.
+  rewrite skipn_last4 in E by lia. set (w := nth (length x - 1) x 0) in *.
+  rewrite <- (decode_rank 4 (decode 4 w)) at 1 by (try apply decode_length; apply decode_lt4).
+  f_equal. lia.
+Qed.
+
+Lemma nlist_cmp_eq' a : forall b, nlist_cmp a b = Eq <-> a = b.
+Proof.
+  induction a as [|x a IH]; destruct b as [|y b]; cbn; split; intro H; try discriminate; auto.
+  - destruct (N.compare_spec x y); try discriminate. subst. f_equal. now apply IH.
+  - injection H as -> ->. rewrite N.compare_refl. now apply IH.
+Qed.
+Lemma lanes_of_inj' a : forall b, Forall (fun w => w < two64) a -> Forall (fun w => w < two64) b ->
+  lanes_of a = lanes_of b -> a = b.
+Proof.
+  induction a as [|x a IH]; destruct b as [|y b]; intros Ha Hb H; auto.
+  - apply (f_equal (@length N)) in H. rewrite !lanes_of_length in H. cbn in H. lia.
+  - apply (f_equal (@length N)) in H. rewrite !lanes_of_length in H. cbn in H. lia.
+  - apply Forall_cons_iff in Ha as [Hx Ha]. apply Forall_cons_iff in Hb as [Hy Hb]. rewrite !lanes_of_cons in H.
+    assert (E : decode 32 x = decode 32 y /\ lanes_of a = lanes_of b).
+    { apply app_inj_length; [now rewrite !decode_length | exact H]. }
+    destruct E as [E1 E2]. f_equal; [apply (decode_inj 32); try apply wf64; assumption | apply IH; assumption].
+Qed.
+
+(* two Lmers of the same capacity that satisfy the invariant and hold the same bases have the same words *)
+Lemma l_abs_inj x y : l_inv x -> l_inv y -> l_size x = l_size y -> l_abs x = l_abs y -> x = y.
+Proof.
+  intros Ix Iy Hs H. destruct (l_inv_len x Ix) as [lx [Ex [_ Lx]]]. destruct (l_inv_len y Iy) as [ly [Ey [_ Ly]]].
+  assert (Hxy : ly = lx) by (rewrite <- Lx, <- Ly; now rewrite H). rewrite Hxy in Ey.
+  apply lanes_of_inj'; [apply Ix | apply Iy|].
+  rewrite (l_lanes_canon x lx Ix Ex), (l_lanes_canon y lx Iy Ey), H, Hs. reflexivity.
+Qed.
+
+(* derived == : the word arrays; equal exactly when the base sequences (which carry the length) are equal *)
+Theorem l_eq_iff x y : l_inv x -> l_inv y -> l_size x = l_size y -> (l_eq x y = true <-> l_abs x = l_abs y).
+Proof.
+  intros Ix Iy Hs. unfold l_eq. split.
+  - destruct (nlist_cmp x y) eqn:E; try discriminate. apply nlist_cmp_eq' in E. now subst.
+  - intro H. rewrite (l_abs_inj x y Ix Iy Hs H). now rewrite (proj2 (nlist_cmp_eq' y y) eq_refl).
+Qed.
+Theorem l_hash_feed_inj x y : l_inv x -> l_inv y -> l_size x = l_size y ->
+  (l_hash_feed x = l_hash_feed y <-> l_abs x = l_abs y).
+Proof.
+  intros Ix Iy Hs. unfold l_hash_feed. split; [now intros -> | now apply l_abs_inj].
+Qed.
+(* same bases, different lengths: never equal (the length is part of l_abs) *)
+Corollary l_eq_len x y lx ly : l_inv x -> l_inv y -> l_size x = l_size y -> l_len x = Some lx -> l_len y = Some ly ->
+  l_eq x y = true -> lx = ly.
+Proof.
+  intros Ix Iy Hs Ex Ey H. apply (l_eq_iff x y Ix Iy Hs) in H.
+  rewrite <- (l_abs_length x lx Ix Ex), <- (l_abs_length y ly Iy Ey). now rewrite H.
+Qed.
